@@ -7,15 +7,16 @@ open Wire Gen Gen.Std
 /-- no struct-like of the schema is written with the union check -/
 def noUnionB (P : Prog) : Bool := P.structs.all fun sd => sd.kind != 1
 
-theorem noUnionB_sound (P : Prog) (h : noUnionB P = true) :
-    ∀ i sd, P.structs[i]? = some sd → (sd.kind == 1) = false := by
+def NoUnion (P : Prog) : Prop := ∀ (i : Nat) (sd : StructDef), P.structs[i]? = some sd → (sd.kind == 1) = false
+
+theorem noUnionB_sound (P : Prog) (h : noUnionB P = true) : NoUnion P := by
   intro i sd hsd
   simp only [noUnionB, List.all_eq_true] at h
   have := h sd (List.mem_of_getElem? hsd)
   simpa using this
 
 mutual
-theorem toW_total (P : Prog) (hk : ∀ i sd, P.structs[i]? = some sd → (sd.kind == 1) = false)
+theorem toW_total (P : Prog) (hk : NoUnion P)
     (hv : P.validateSet = false) (v : GoVal) : ∀ (ty : Ty), WT P.structs ty v → ∃ w, toW P ty v = .ok w := by
   intro ty hwt
   cases v with
@@ -33,23 +34,24 @@ theorem toW_total (P : Prog) (hk : ∀ i sd, P.structs[i]? = some sd → (sd.kin
     cases ty <;> simp only [WT] at hwt
     · rename_i e
       obtain ⟨ws, hws⟩ := toWList_total P hk hv xs e hwt.2
-      exact ⟨_, by simp [toW, hws, bind]⟩
+      exact ⟨.list e.ttype ws, by simp [toW, hws, bind]⟩
     · rename_i e
       obtain ⟨ws, hws⟩ := toWList_total P hk hv xs e hwt.2
-      exact ⟨_, by simp [toW, hv, hws, bind]⟩
+      exact ⟨.set e.ttype ws, by simp [toW, hv, hws, bind]⟩
   | map kvs =>
     cases ty <;> simp only [WT] at hwt
     rename_i k vt
     obtain ⟨ws, hws⟩ := toWPairs_total P hk hv kvs k vt hwt.2.1
-    exact ⟨_, by simp [toW, hws, bind]⟩
+    exact ⟨.map k.ttype vt.ttype ws, by simp [toW, hws, bind]⟩
   | strct fs =>
     cases ty <;> simp only [WT] at hwt
     rename_i i
     obtain ⟨sd, hsd, hf⟩ := hwt
     obtain ⟨ws, hws⟩ := toWFields_total P hk hv fs sd.fields hf
-    exact ⟨_, by simp [toW, Prog.struct?, hsd, hk i sd hsd, hws, bind]⟩
+    have hk1 : ¬ sd.kind = 1 := by have := hk i sd hsd; simpa using this
+    exact ⟨.struct ws, by simp [toW, Prog.struct?, hsd, hk1, hws, bind]⟩
 
-theorem toWList_total (P : Prog) (hk : ∀ i sd, P.structs[i]? = some sd → (sd.kind == 1) = false)
+theorem toWList_total (P : Prog) (hk : NoUnion P)
     (hv : P.validateSet = false) (xs : List GoVal) : ∀ (e : Ty), WTList P.structs e xs → ∃ ws, toWList P e xs = .ok ws := by
   intro e hwt
   cases xs with
@@ -60,7 +62,7 @@ theorem toWList_total (P : Prog) (hk : ∀ i sd, P.structs[i]? = some sd → (sd
     obtain ⟨ws, hws⟩ := toWList_total P hk hv r e hwt.2
     exact ⟨w :: ws, by simp [toWList, hw, hws, bind]⟩
 
-theorem toWPairs_total (P : Prog) (hk : ∀ i sd, P.structs[i]? = some sd → (sd.kind == 1) = false)
+theorem toWPairs_total (P : Prog) (hk : NoUnion P)
     (hv : P.validateSet = false) (kvs : List (GoVal × GoVal)) : ∀ (k v : Ty), WTPairs P.structs k v kvs →
     ∃ ws, toWPairs P k v kvs = .ok ws := by
   intro k v hwt
@@ -74,7 +76,7 @@ theorem toWPairs_total (P : Prog) (hk : ∀ i sd, P.structs[i]? = some sd → (s
     obtain ⟨ws, hws⟩ := toWPairs_total P hk hv r k v hwt.2.2
     exact ⟨(wa, wb) :: ws, by simp [toWPairs, hwa, hwb, hws, bind]⟩
 
-theorem toWFields_total (P : Prog) (hk : ∀ i sd, P.structs[i]? = some sd → (sd.kind == 1) = false)
+theorem toWFields_total (P : Prog) (hk : NoUnion P)
     (hv : P.validateSet = false) (vs : List GoVal) : ∀ (defs : List FieldDef), WTFields P.structs defs vs →
     ∃ ws, toWFields P defs vs = .ok ws := by
   intro defs hwt
